@@ -1,8 +1,11 @@
 package sym
 
 import (
+	"go/constant"
 	"go/token"
+	"go/types"
 	"sort"
+	"strings"
 
 	"golang.org/x/tools/go/ssa"
 )
@@ -170,4 +173,147 @@ func (fr *Frame) EquivalentReach(b int) *Term {
 		best = d
 	}
 	return fr.reach[best.Index]
+}
+
+// InLoop reports whether block b belongs to the natural loop of this frame headed by h.
+func (fr *Frame) InLoop(h, b int) bool { return fr.headers[h] && fr.inLoop(h, b) }
+
+// ExitedLoop returns the header of the innermost loop of this frame that block b leaves early: b is outside the loop
+// but every way into b comes out of the loop's body (a `return` or `break` target inside a `for`). ok is false when
+// b is not such a block.
+func (fr *Frame) ExitedLoop(b int) (int, bool) {
+	blocks := fr.Fn.Blocks
+	best, found := -1, false
+	for h := range fr.headers {
+		if fr.inLoop(h, b) || !blocks[h].Dominates(blocks[b]) {
+			continue
+		}
+		// walk predecessors through blocks outside the loop; all chains must start inside the loop, not at the
+		// loop's own exit test (the header)
+		seen := map[int]bool{}
+		var fromBody func(x int) bool
+		fromBody = func(x int) bool {
+			if seen[x] {
+				return true
+			}
+			seen[x] = true
+			if len(blocks[x].Preds) == 0 {
+				return false
+			}
+			for _, p := range blocks[x].Preds {
+				if p.Index == h {
+					return false
+				}
+				if fr.inLoop(h, p.Index) {
+					continue
+				}
+				if !blocks[h].Dominates(p) || !fromBody(p.Index) {
+					return false
+				}
+			}
+			return true
+		}
+		if fromBody(b) {
+			if !found || fr.inLoop(best, h) {
+				best, found = h, true
+			}
+		}
+	}
+	return best, found
+}
+
+
+func (fr *Frame) noteHeaderJoin(skey string, b int, o *Object, p Path, vs []*Term) {
+	if fr.hjoin == nil {
+		fr.hjoin = map[string]headerJoin{}
+	}
+	fr.hjoin[skey] = headerJoin{header: b, obj: o, path: p, vals: append([]*Term{}, vs...)}
+}
+
+// exitMem is the memory on the edge that leaves the loop headed by h through the loop's own test, i.e. after all
+// iterations. An array that a counted loop with a constant trip count fills completely, element I on the iteration
+// with index I, unconditionally, with a value that depends on I and loop-invariant values only, is known at that
+// point: element k is that value at I = k. (Inside the loop, and on early exits, the array stays an opaque atom.)
+func (fr *Frame) exitMem(h int, m *Mem) *Mem {
+	if len(fr.hjoin) == 0 {
+		return m
+	}
+	var li *LoopInfo
+	out := m
+	for skey, hj := range fr.hjoin {
+		if hj.header != h {
+			continue
+		}
+		a := fr.sticky[skey]
+		if a == nil {
+			continue
+		}
+		cur, ok := m.lookupKey(hj.obj.ID, hj.path.String())
+		if !ok || !Eq(cur.val, a) {
+			continue
+		}
+		at, isArr := a.T.Underlying().(*types.Array)
+		if a.T == nil || !isArr || at.Len() > 64 {
+			continue
+		}
+		if li == nil {
+			l, ok := fr.Loop(h)
+			if !ok {
+				return m
+			}
+			li = l
+		}
+		i0, okI := li.Init.Int64()
+		n, okN := li.Bound.Int64()
+		if !okI || !okN || li.Step != 1 || li.Op != token.LSS || i0+li.Offset != 0 || n != at.Len() {
+			continue
+		}
+		// exactly one incoming value is "the array at the loop head with element I replaced"; the others are what the
+		// array was before the loop (irrelevant: every element is overwritten)
+		var val *Term
+		nUpd := 0
+		for _, v := range hj.vals {
+			if v != nil && v.Op == "upd" && Eq(v.Args[0], a) && Eq(stripConv(v.Args[1]), stripConv(li.IndexVal)) {
+				val = v.Args[2]
+				nUpd++
+			} else if v != nil && Mentions(v, a.Key()) {
+				nUpd = 99 // the array is also carried round the loop in another way (conditional store, second store)
+			}
+		}
+		if nUpd != 1 || val == nil {
+			continue
+		}
+		phiAtom := fr.vals[li.Phi]
+		if phiAtom == nil || phiAtom.Op != "atom" {
+			continue
+		}
+		variant := false
+		Walk(val, func(x *Term) bool {
+			if x.Op == "atom" && x.Name != phiAtom.Name &&
+				(strings.HasPrefix(x.Name, "phi#"+fr.ID+"#") || strings.HasPrefix(x.Name, "phi#"+fr.ID+"/") ||
+					strings.HasPrefix(x.Name, "mem#"+fr.ID+"#") || strings.HasPrefix(x.Name, "mem#"+fr.ID+"/")) {
+				variant = true
+			}
+			return !variant
+		})
+		if variant {
+			continue
+		}
+		elems := make([]*Term, n)
+		for k := int64(0); k < n; k++ {
+			elems[k] = Subst(val, phiAtom, Const(constant.MakeInt64(k-li.Offset), phiAtom.T))
+		}
+		if out == m {
+			out = m.Clone()
+		}
+		out.put(hj.obj, hj.path, &Term{Op: "agg", Args: elems, T: a.T})
+	}
+	return out
+}
+
+func stripConv(t *Term) *Term {
+	for t != nil && t.Op == "conv" && len(t.Args) == 1 {
+		t = t.Args[0]
+	}
+	return t
 }
